@@ -56,6 +56,7 @@ type c12Spec struct {
 	Mode      string     `json:"mode"`                   // production | testing
 	Prior     int        `json:"prior_panics,omitempty"` // Panic calls issued (and recovered) on the same logger before the call of the cell
 	Argv      string     `json:"extra_argv,omitempty"`   // one more command-line argument of the process (an application flag that merely looks like a test flag)
+	FlipInW   bool       `json:"noint_set_inside_write,omitempty"` // the call starts under the opposite LnoInterrupt; a destination's Write sets the cell's value
 	Silenced  bool       `json:"silenced,omitempty"` // the logger's writers are io.Discard (a library user silencing one logger): nothing is delivered, the termination is due all the same
 	ViaScope  bool       `json:"flags_via_scope,omitempty"` // the two flags reach the cell's values through a SaveFlagsAndMod scope that set the opposite and was left again
 	NArgs     int        `json:"more_pairs,omitempty"`   // further key/value pairs of the call (0: the one pair every cell has); more than the pooled slices hold when large
@@ -67,7 +68,7 @@ func (s c12Spec) canon() string {
 	if s.Custom != nil {
 		c = fmt.Sprintf("%d/%d", s.Custom.V, s.Custom.Treat)
 	}
-	return fmt.Sprintf("%s.%s sev=%d L=%d ni=%v ia=%v %s d=%d %s c=%s p=%d", s.Recv, s.Name, s.Sev, s.Level, s.NoInt, s.IntAlways, s.Format, s.Dests, s.Mode, c, s.Prior) + " " + s.Argv + fmt.Sprintf(" n=%d scope=%v silenced=%v", s.NArgs, s.ViaScope, s.Silenced)
+	return fmt.Sprintf("%s.%s sev=%d L=%d ni=%v ia=%v %s d=%d %s c=%s p=%d", s.Recv, s.Name, s.Sev, s.Level, s.NoInt, s.IntAlways, s.Format, s.Dests, s.Mode, c, s.Prior) + " " + s.Argv + fmt.Sprintf(" n=%d scope=%v silenced=%v flipinwrite=%v", s.NArgs, s.ViaScope, s.Silenced, s.FlipInW)
 }
 
 // what the parent saw
@@ -98,7 +99,19 @@ type journalW struct {
 	journal *os.File
 }
 
+// c12FlipInWrite: when set, the first Write of the cell brings LnoInterrupt to this value (the call started under the
+// opposite one): the decision to terminate is made after the record is written, with the flags as they are then
+var c12FlipInWrite *bool
+
 func (w *journalW) Write(p []byte) (int, error) {
+	if c12FlipInWrite != nil {
+		if *c12FlipInWrite {
+			slog.AddFlags(slog.LnoInterrupt)
+		} else {
+			slog.RemoveFlags(slog.LnoInterrupt)
+		}
+		c12FlipInWrite = nil
+	}
 	n, err := w.f.Write(p)
 	fmt.Fprintf(w.journal, "write %d %d\n", w.id, n)
 	return n, err
@@ -241,6 +254,15 @@ func c12Child(args []string) {
 	}
 	if sp.Silenced {
 		e.SetWriter(io.Discard).SetErrorWriter(io.Discard)
+	}
+	if sp.FlipInW && !sp.Silenced && e.Enabled(slog.Level(sp.Sev)) {
+		want := sp.NoInt
+		c12FlipInWrite = &want
+		if want {
+			slog.RemoveFlags(slog.LnoInterrupt)
+		} else {
+			slog.AddFlags(slog.LnoInterrupt)
+		}
 	}
 	fmt.Fprintf(journal, "ready intesting=%v flags=%d debug=%v level=%d\n", slog.VerifInTesting(), int64(slog.GetFlags()), is.DebugMode(), int(e.Level()))
 	defer func() {
@@ -703,6 +725,7 @@ func runC12(r *Run) {
 		cells[i].Prior = i % 3
 		cells[i].ViaScope = i%3 == 1
 		cells[i].Silenced = i%7 == 3
+		cells[i].FlipInW = i%4 == 2 && !cells[i].ViaScope
 		if i%5 == 2 { // a call with more attributes than the pooled slices hold
 			cells[i].NArgs = []int{1100, 130, 2100}[i/5%3]
 		}
@@ -718,6 +741,11 @@ func runC12(r *Run) {
 		if o.Spec.Silenced { // (the model counts the records delivered: a silenced logger is judged by the direct oracle alone)
 			r.Count(true, "silenced "+o.Spec.canon())
 			r.Dist["silenced_cells"]++
+			continue
+		}
+		if o.Spec.FlipInW { // (the model is given the flags observed before the call: these cells change them during it)
+			r.Count(true, "flip-in-write "+o.Spec.canon())
+			r.Dist["flags_set_inside_write_cells"]++
 			continue
 		}
 		c12AddCase(r, o)
